@@ -32,6 +32,11 @@ class Token(Resource):
 
     available: int
 
+    @property
+    def capacity(self) -> int:
+        """The maximum number of tokens that can ever be available"""
+        raise NotImplementedError()
+
     def aio_notify(self):
         # Notifying
         def check(dependency: Dependency):
@@ -264,6 +269,10 @@ class CounterToken(Token, FileSystemEventHandler):
     def __str__(self):
         return "token[{}]".format(self.name)
 
+    @property
+    def capacity(self) -> int:
+        return self.total
+
     def on_deleted(self, event):
         logger.debug(
             "Deleted path notification %s [watched %s]",
@@ -436,6 +445,10 @@ class ProcessCounterToken(Token):
 
     def __str__(self):
         return "process-token()"
+
+    @property
+    def capacity(self) -> int:
+        return self.count
 
     def dependency(self, count):
         """Create a token dependency"""
